@@ -130,6 +130,19 @@ CHECKS = {
              "zero-points.",
         note="Assumes reshape/permute/shift/or behave the same on CPU and CUDA. The selection of the AWQ class and the "
              "device-move glue need a CUDA device and are not executed; CUDA gemm kernels are out of reach."),
+    "C12": dict(
+        technique="offline checker over recorded calibration histories: recorder at each quantized module's own boundary "
+                  "(instance hooks + qforward spy), float64 replay of the EMA recurrence, saturation probe after "
+                  "single-batch calibration",
+        level="exploration", ref="4/C12",
+        text="Batch sequences with magnitudes over six decades run through the real Calibration context (1-3 successive "
+             "contexts, several momenta, streamlining on/off) on Linear/Conv2d/LayerNorm models alone and chained; per "
+             "module and per batch the recorder logs the input absmax (or the adopted scale of a quantized input), the raw "
+             "output absmax and the scales after the batch; the checker replays first-batch initialisation and "
+             "s = m*s + (1-m)*absmax/qmax in float64 and compares within a dtype-derived tolerance.",
+        note="Scales are read at the module boundary at the time of the batch (streamlining may switch a module's "
+             "activations off later). Known finding C12-F22 (a scale equal to 1.0 restarts the average) is matched by the "
+             "arithmetic relation computed by the checker."),
 }
 
 PLANNED = {}
